@@ -7,6 +7,7 @@ import (
 	"go/token"
 	"go/types"
 	"sort"
+	"strings"
 
 	"golang.org/x/tools/go/ssa"
 )
@@ -329,8 +330,17 @@ func c01R1(c *Ctx, macBuf *types.Var, live map[*ssa.Function]bool) {
 			if duplexOp(ins) == "Squeeze" {
 				call := ins.(*ssa.Call)
 				if len(call.Call.Args) == 2 && hasField(call.Call.Args[1], macBuf) {
-					sites = append(sites, site{fn, call})
-					perFn[FuncName(fn)]++
+					// a helper cut out of a reader is analysed as part of that reader
+					owner, times := fn, 1
+					if o := P.OwnerOf(fn); o != fn {
+						for name := range macReaderFloors {
+							if r := P.Func("transport", strings.TrimPrefix(name, "transport.")); r != nil && P.OwnedBy(fn, r) {
+								owner, times = r, len(P.Callers(fn))
+							}
+						}
+					}
+					sites = append(sites, site{owner, call})
+					perFn[FuncName(owner)] += times
 				}
 			}
 		})
@@ -374,7 +384,7 @@ func c01R1(c *Ctx, macBuf *types.Var, live map[*ssa.Function]bool) {
 				bad[k] = &viol{detail: detail, site: P.InstrPos(site), path: pathTrace(P, p)}
 			}
 		}
-		n, complete := WalkPaths(fn, PathOpts{}, func(p *Path) bool {
+		n, complete := WalkPathsInl(fn, PathOpts{}, func(p *Path) bool {
 			var pending, mismatch *ssa.Call
 			p.ForEach(func(i int, ins ssa.Instruction) bool {
 				if isLogCall(ins) {
@@ -563,7 +573,7 @@ func c01R2R5(c *Ctx, macBuf *types.Var, live map[*ssa.Function]bool) {
 			var r2site, r5site ssa.Instruction
 			var r2path, r5path *Path
 			r5seen := false
-			n, complete := WalkPaths(fn, PathOpts{}, func(p *Path) bool {
+			n, complete := WalkPathsInl(fn, PathOpts{}, func(p *Path) bool {
 				seenCall := false
 				var dhVal ssa.Value // result of DH(leaf.PublicKey)
 				absorbedDH := false
@@ -665,7 +675,7 @@ func c01R2R5(c *Ctx, macBuf *types.Var, live map[*ssa.Function]bool) {
 		var bad string
 		var badPath *Path
 		succ := 0
-		_, complete := WalkPaths(w, PathOpts{}, func(p *Path) bool {
+		_, complete := WalkPathsInl(w, PathOpts{}, func(p *Path) bool {
 			if errReturnClass(p) == nonNil {
 				return true
 			}
